@@ -10,6 +10,7 @@ func init() {
 			{Fn: "ZZC20Verify", Quick: p("N", 3), Thorough: p("N", 5), Expect: []string{"verify-ok", "verify-rejects", "witness:end"}},
 		}}},
 		Assumptions: []string{
+			"ZZC20Text: 4 question outputs x 14 answer texts; ZZC20Seal over the three answer types with non-canonical choice texts",
 			"ideal primitives: rsa.EncryptOAEP/DecryptOAEP, aes.NewCipher, cipher.NewGCM, gcm.Seal/Open, rand.Reader, x509 key parsing are stubs; decryption returns the message iff ciphertext bytes and key are exactly those of the matching encryption, otherwise an error (the authenticated-encryption / OAEP contract)",
 			"the RSA part has L bytes in the model (real keys: 128..512); the envelope code never depends on L except through the 16-bit length prefix",
 			"renderers are stubs returning fixed outputs (runEvy is not executed); a choice 'matches' iff its output string equals the question's",
